@@ -1345,6 +1345,15 @@ func init() {
 					}
 					return
 				}
+				// max(a, b): at most the larger of what each argument may be
+				if call, ok := v.(*ssa.Call); ok && d < 4 {
+					if b, isB := call.Call.Value.(*ssa.Builtin); isB && (b.Name() == "max" || b.Name() == "min") {
+						for _, a := range call.Call.Args {
+							collect(a, d+1)
+						}
+						return
+					}
+				}
 				edges = append(edges, v)
 			}
 			collect(mk.Cap, 0)
